@@ -136,6 +136,9 @@ def _decorator_names(fn):
 class Program(object):
     def __init__(self, src=None, overrides=None):
         self.renamed = []           # [(function, {current local name: reference name})] -- see nfcsa/alpha.py
+        self.inlined = []           # [(new helper, number of call sites expanded)] -- see nfcsa/inline.py
+        self._expanded = []
+        self.new_temps = 0          # temporaries the reference does not have, substituted at their single use
         self.src = src or SRC
         self.overrides = overrides or {}    # module name -> source text (in-memory mutants)
         self.modules = {}
@@ -171,6 +174,11 @@ class Program(object):
                 except SyntaxError as e:
                     raise AnalysisError('cannot parse %s: %s' % (path, e))
                 if os.environ.get('NFCSA_NO_CANON') != '1':
+                    from . import inline
+                    for unit, n_sites, fnode in inline.expand(name, tree):
+                        self.inlined.append((name + '.' + unit, n_sites))
+                        self._expanded.append((tree, fnode))
+                    self.new_temps += inline.inline_new_temps(name, tree)
                     from .canon import canonical
                     tree = canonical(tree)
                     from . import alpha
@@ -178,6 +186,22 @@ class Program(object):
                         self.renamed.append((name + '.' + unit, mapping))
                 m = Module(name, path, tree, source, is_pkg)
                 self.modules[name] = m
+        # an expanded helper that nothing refers to any more (every call was expanded) is dropped: its statements now live in its
+        # callers, where the rules that ask "who writes X" / "is the lock held here" have to see them
+        for tree, fnode in self._expanded:
+            used = False
+            for m in self.modules.values():
+                for x in ast.walk(m.tree):
+                    if (isinstance(x, ast.Name) and x.id == fnode.name) or (isinstance(x, ast.Attribute) and x.attr == fnode.name) or \
+                            (isinstance(x, ast.Constant) and x.value == fnode.name):
+                        used = True
+            if used:
+                continue
+            for node in ast.walk(tree):
+                for fld in ('body', 'orelse', 'finalbody'):
+                    lst = getattr(node, fld, None)
+                    if isinstance(lst, list) and any(c is fnode for c in lst):
+                        lst[:] = [c for c in lst if c is not fnode] or [ast.Pass()]
         for m in self.modules.values():
             self._index_module(m)
 
